@@ -13,6 +13,7 @@ import Mathlib.Tactic.NormNum
 
 set_option linter.unusedSectionVars false
 set_option linter.unusedVariables false
+set_option linter.unusedSimpArgs false
 
 namespace OMV.C20
 
@@ -223,9 +224,8 @@ theorem C20_bounds_interval_pos (a s lo hi x : K) (hs : 0 < s) :
     add_le_add_iff_right]
 
 /-- Negative scaler: the image interval is reversed — the image of the model's lower bound is an
-upper bound in optimizer space and vice versa.  (`_scale_bound` stores the image of `lower` as the
-scaled lower bound; for `scaler < 0` the pair it exposes is therefore `(T lo, T hi)` with
-`T hi ≤ T lo`.) -/
+upper bound in optimizer space and vice versa (this is why `_compute_scaled_bounds` exchanges the two
+scaled bounds where the scaler is negative, see `C20_bounds_feasible_image`). -/
 theorem C20_bounds_interval_neg (a s lo hi x : K) (hs : s < 0) :
     (lo ≤ x ∧ x ≤ hi) ↔
       (scaleElem a s hi ≤ scaleElem a s x ∧ scaleElem a s x ≤ scaleElem a s lo) := by
@@ -233,6 +233,120 @@ theorem C20_bounds_interval_neg (a s lo hi x : K) (hs : s < 0) :
   rw [mul_le_mul_right_of_neg hs, mul_le_mul_right_of_neg hs, add_le_add_iff_right,
     add_le_add_iff_right]
   exact And.comm
+
+/-- Full strength, repaired code (`swapNeg = true`): the pair of scaled bounds the optimizer is given
+describes exactly the image of the model's feasible interval, for every non-zero scaler of either
+sign and every adder: `x` satisfies the model bounds `L`, `U` (a sentinel meaning "no bound") iff its
+image `(x + adder)·scaler` satisfies the scaled pair.  The side conditions say that the image of a
+finite bound does not itself reach a sentinel. -/
+theorem C20_bounds_feasible_image (inf a s L U x : K) (hs : s ≠ 0)
+    (hL : isInfBound inf true L = false → -inf < scaleElem a s L ∧ scaleElem a s L < inf)
+    (hU : isInfBound inf false U = false → -inf < scaleElem a s U ∧ scaleElem a s U < inf) :
+    feasB inf
+      (swapElem inf (true && decide (s < 0)) (boundElem inf true a s L) (boundElem inf false a s U)).1
+      (swapElem inf (true && decide (s < 0)) (boundElem inf true a s L) (boundElem inf false a s U)).2
+      (scaleElem a s x) = feasB inf L U x := by
+  have bl : boundElem inf true a s L = if L ≤ -inf then -inf else scaleElem a s L := by
+    simp [boundElem, isInfBound, sentinel, scaleElem]
+  have bu : boundElem inf false a s U = if inf ≤ U then inf else scaleElem a s U := by
+    simp [boundElem, isInfBound, sentinel, scaleElem]
+  rw [bl, bu, Bool.eq_iff_iff]
+  simp only [isInfBound, if_true, Bool.false_eq_true, if_false, decide_eq_false_iff_not] at hL hU
+  rcases lt_or_gt_of_ne hs with hneg | hpos
+  · have e1 := fun u v => scale_le_neg a s u v hneg
+    by_cases hLi : L ≤ -inf <;> by_cases hUi : inf ≤ U
+    · simp [feasB, swapElem, hneg, hLi, hUi]
+    · obtain ⟨u1, u2⟩ := hU hUi
+      simp [feasB, swapElem, hneg, hLi, hUi, not_le.mpr u1, not_le.mpr u2, e1]
+    · obtain ⟨l1, l2⟩ := hL hLi
+      simp [feasB, swapElem, hneg, hLi, hUi, not_le.mpr l1, not_le.mpr l2, e1]
+    · obtain ⟨u1, u2⟩ := hU hUi
+      obtain ⟨l1, l2⟩ := hL hLi
+      simp [feasB, swapElem, hneg, hLi, hUi, not_le.mpr u1, not_le.mpr u2, not_le.mpr l1,
+        not_le.mpr l2, e1, and_comm]
+  · have e1 := fun u v => scale_le_pos a s u v hpos
+    have hn : ¬ s < 0 := not_lt.mpr hpos.le
+    by_cases hLi : L ≤ -inf <;> by_cases hUi : inf ≤ U
+    · simp [feasB, swapElem, hn, hLi, hUi]
+    · obtain ⟨u1, u2⟩ := hU hUi
+      simp [feasB, swapElem, hn, hLi, hUi, not_le.mpr u1, not_le.mpr u2, e1]
+    · obtain ⟨l1, l2⟩ := hL hLi
+      simp [feasB, swapElem, hn, hLi, hUi, not_le.mpr l1, not_le.mpr l2, e1]
+    · obtain ⟨u1, u2⟩ := hU hUi
+      obtain ⟨l1, l2⟩ := hL hLi
+      simp [feasB, swapElem, hn, hLi, hUi, not_le.mpr u1, not_le.mpr u2, not_le.mpr l1,
+        not_le.mpr l2, e1]
+
+/-- `_partial`, pinned snapshot (`swapNeg = false`, each bound scaled on its own): the same statement
+holds only for a positive scaler. -/
+theorem C20_bounds_feasible_image_partial (inf a s L U x : K) (hs : 0 < s)
+    (hL : isInfBound inf true L = false → -inf < scaleElem a s L ∧ scaleElem a s L < inf)
+    (hU : isInfBound inf false U = false → -inf < scaleElem a s U ∧ scaleElem a s U < inf) :
+    feasB inf
+      (swapElem inf (false && decide (s < 0)) (boundElem inf true a s L) (boundElem inf false a s U)).1
+      (swapElem inf (false && decide (s < 0)) (boundElem inf true a s L) (boundElem inf false a s U)).2
+      (scaleElem a s x) = feasB inf L U x := by
+  have h := C20_bounds_feasible_image inf a s L U x (ne_of_gt hs) hL hU
+  have hn : decide (s < 0) = false := decide_eq_false (not_lt.mpr hs.le)
+  simpa [hn] using h
+
+/-- The un-exchanged variant is wrong for a negative scaler: `lower = 0`, no upper bound,
+`scaler = -1` (INF_BOUND played by 10): `x = 1` is feasible in the model but its image `-1` violates
+the pair `(0, 10)` the optimizer would be given; the exchanged pair `(-10, 0)` accepts it. -/
+theorem C20_bounds_unswapped_negative_counterexample :
+    feasB (10 : Rat) 0 10 1 = true ∧
+    feasB (10 : Rat)
+      (swapElem 10 (false && decide ((-1 : Rat) < 0)) (boundElem 10 true 0 (-1) 0) (boundElem 10 false 0 (-1) 10)).1
+      (swapElem 10 (false && decide ((-1 : Rat) < 0)) (boundElem 10 true 0 (-1) 0) (boundElem 10 false 0 (-1) 10)).2
+      (scaleElem 0 (-1) 1) = false ∧
+    feasB (10 : Rat)
+      (swapElem 10 (true && decide ((-1 : Rat) < 0)) (boundElem 10 true 0 (-1) 0) (boundElem 10 false 0 (-1) 10)).1
+      (swapElem 10 (true && decide ((-1 : Rat) < 0)) (boundElem 10 true 0 (-1) 0) (boundElem 10 false 0 (-1) 10)).2
+      (scaleElem 0 (-1) 1) = true := by decide +kernel
+
+/-- Arrays: `_compute_scaled_bounds` on a whole variable (bounds, adder, scaler as float or array, mixed
+signs allowed) returns, element by element, the pair of `C20_bounds_feasible_image` — the
+`np.any(scaler < 0)` fast path and the masked exchange agree with the elementwise description. -/
+theorem C20_scaled_bounds_vec (swapNeg : Bool) (inf : K) (adder scaler lower upper : Sv K) (n : Nat)
+    (Ls Us la ls : List K) (hl : lower.bcast n = .ok Ls) (hu : upper.bcast n = .ok Us)
+    (ha : adder.strict n = .ok la) (hs : scaler.strict n = .ok ls) :
+    scaledBounds swapNeg inf (some adder) (some scaler) n (some lower) (some upper)
+      = .ok (zip3With (fun s l u => (swapElem inf (swapNeg && decide (s < 0)) l u).1) ls
+              (zip3With (fun v a s => boundElem inf true a s v) Ls la ls)
+              (zip3With (fun v a s => boundElem inf false a s v) Us la ls),
+             zip3With (fun s l u => (swapElem inf (swapNeg && decide (s < 0)) l u).2) ls
+              (zip3With (fun v a s => boundElem inf true a s v) Ls la ls)
+              (zip3With (fun v a s => boundElem inf false a s v) Us la ls)) := by
+  have hLs := Sv.bcast_length hl
+  have hUs := Sv.bcast_length hu
+  have hla := Sv.strict_length ha
+  have hls := Sv.strict_length hs
+  have hlo := zip3With_length_eq (fun v a s => boundElem inf true a s v) n Ls la ls hLs hla hls
+  have hup := zip3With_length_eq (fun v a s => boundElem inf false a s v) n Us la ls hUs hla hls
+  unfold scaledBounds
+  rw [C20_bounds_image_vec inf true adder scaler lower n Ls la ls hl ha hs,
+    C20_bounds_image_vec inf false adder scaler upper n Us la ls hu ha hs]
+  by_cases hc : (swapNeg && scaler.any (fun s => decide (s < 0))) = true
+  · have hsw : swapNeg = true := by
+      cases swapNeg <;> simp_all
+    subst hsw
+    simp only [hc, if_true, Sv.strict_bcast hs, zip3With_map_left, Bool.true_and]
+  · have hid := zip3With_swap_id inf (fun s => swapNeg && decide (s < 0)) ls
+      (zip3With (fun v a s => boundElem inf true a s v) Ls la ls)
+      (zip3With (fun v a s => boundElem inf false a s v) Us la ls)
+      (by
+        intro s hsm
+        cases swapNeg with
+        | false => rfl
+        | true =>
+          have : scaler.any (fun s => decide (s < 0)) = false := by simpa using hc
+          simpa using Sv.strict_any_false hs this s hsm)
+      (by rw [hls, hlo]) (by rw [hup, hlo])
+    simp only [hc, Bool.false_eq_true, if_false, hid.1, hid.2]
+
+example : scaledBounds true (10 : Rat) (some (Sv.scalar 1)) (some (Sv.array [2, -4])) 2
+    (some (Sv.array [-1, -10])) (some (Sv.array [3, 5])) = .ok ([0, -24], [8, 10]) := by
+  decide +kernel
 
 /-- The regenerated `INF_BOUND` is positive, so the two sentinels are distinct and ordered. -/
 theorem C20_inf_sentinels :
